@@ -14,6 +14,7 @@ CONSTANTS
   AllowDupStart = FALSE
   AllowSilentInit = FALSE
   AllowRestartRace = FALSE
+  AllowLateStart = FALSE
   AllowDoubleError = FALSE
   SInsts = {}
   SIds = {}
@@ -40,6 +41,7 @@ CONSTANTS
   FixDup = FALSE
   FixDel = FALSE
   FixInit = FALSE
+  FixLate = FALSE
   PreAcked = TRUE
   Bursts = FALSE
   Sync = FALSE
